@@ -1011,6 +1011,10 @@ class _ColumnsParsedFmt:
             result.min_w = -1
             result.max_w = -1
         elif width_fmt:
+            if width_fmt.endswith(')') and '(' in width_fmt:
+                # "3-10(7)": annotation with actual width (produced by
+                # ReprColumn.to_fmt_str) is informational only
+                width_fmt = width_fmt[:width_fmt.index('(')].strip()
             chunks = width_fmt.split('-')
             if len(chunks) > 2:
                 raise ValueError(f"Invalid width range: '{width_fmt}'")
